@@ -190,6 +190,8 @@ class BVV:
     @normalize_types
     @compare_bits
     def __lshift__(self, o):
+        if o.value >= self.bits:
+            return BVV(0, self.bits)
         return BVV(self.value << o.value, self.bits)
 
     @normalize_types
